@@ -1135,6 +1135,9 @@ func createLowPass(st funcGen.Stack[Value], store []Value) (Value, error) {
 			a := math.Exp(-dt / tau)
 			yn := y*a + x*(1-a)
 			m, _ := p1.ToMap()
+			if _, ok := m.Get(name); ok {
+				return nil, fmt.Errorf("key '%s' already present in map", name)
+			}
 			return NewMap(AppendMap{key: name, value: Float(yn), parent: m}), nil
 		},
 		Args:   3,
@@ -1148,6 +1151,9 @@ func createLowPass(st funcGen.Stack[Value], store []Value) (Value, error) {
 				return nil, err
 			}
 			m, _ := p0.ToMap()
+			if _, ok := m.Get(name); ok {
+				return nil, fmt.Errorf("key '%s' already present in map", name)
+			}
 			return NewMap(AppendMap{key: name, value: x, parent: m}), nil
 		},
 		Args:   1,
